@@ -76,4 +76,7 @@ impl<K: Eq, S> HashSet<K, S> {
     pub fn insert(&mut self, k: K) -> bool { if self.map.contains_key(&k) { false } else { self.map.insert(k, ()); true } }
     pub fn remove<Q: ?Sized + Eq>(&mut self, k: &Q) -> bool where K: Borrow<Q> { self.map.remove(k).is_some() }
 }
+pub struct SetIntoIter<K> { it: IntoIter<K, ()> }
+impl<K> Iterator for SetIntoIter<K> { type Item = K; fn next(&mut self) -> Option<K> { self.it.next().map(|(k, _)| k) } }
+impl<K, S> IntoIterator for HashSet<K, S> { type Item = K; type IntoIter = SetIntoIter<K>; fn into_iter(self) -> SetIntoIter<K> { SetIntoIter { it: self.map.into_iter() } } }
 impl<K: Eq, S> FromIterator<K> for HashSet<K, S> { fn from_iter<I: IntoIterator<Item = K>>(it: I) -> Self { let mut m = Self::default(); for k in it { m.insert(k); } m } }
